@@ -805,7 +805,14 @@ iwrc iwal_savepoint_exl(struct iwkv *iwkv, bool sync) {
   if (!wal) {
     return 0;
   }
-  return _savepoint_exl(wal, 0, sync);
+  // The caller holds the store exclusively (iwkv_exclusive_lock), which keeps the listeners out, but not
+  // iwal_online_backup(): it flushes the log buffer (stage WAL_COPY1) under the log mutex alone.
+  // Every other savepoint / checkpoint runs under _excl_lock(), which takes this mutex too.
+  iwrc rc = _lock(wal);
+  RCRET(rc);
+  rc = _savepoint_exl(wal, 0, sync);
+  IWRC(_unlock(wal), rc);
+  return rc;
 }
 
 void iwal_shutdown(struct iwkv *iwkv) {
